@@ -155,6 +155,20 @@ def edited_schema_cases(ctx, work):
                     if len(f["dimensions"]) > 1 and f["dimensions"][1] == "samples":
                         f["chunks"][1] = scs
                 edits.append(("*", "chunks", [vcs, scs]))
+            if rng.random() < 0.6:
+                # a finer variants (and samples) chunk for single INFO/FORMAT arrays, the top-level sizes untouched.  Only
+                # divisors of the top-level size: partitions are aligned to it.  (The fixed-field groups and the genotype
+                # arrays advance in lockstep and are left alone.)
+                top = ed["variants_chunk_size"]
+                divs = [d for d in (1, 2, 3, 4, 5, 8, 10) if top % d == 0 and d != top]
+                for f in ed["fields"]:
+                    vf = f["vcf_field"] or ""
+                    if divs and vf.split("/")[0] in ("INFO", "FORMAT") and vf != "FORMAT/GT" and rng.random() < 0.5:
+                        f["chunks"][0] = rng.choice(divs)
+                        if len(f["dimensions"]) > 1 and f["dimensions"][1] == "samples" and rng.random() < 0.5:
+                            f["chunks"][1] = rng.choice([1, 2])
+                        edits.append((f["name"], "chunks", list(f["chunks"])))
+                        ctx.count("per_array_chunk_edits")
             sp = pathlib.Path(work) / f"e{k}_{rep}.schema.json"
             sp.write_text(json.dumps(ed))
             out = pathlib.Path(work) / f"e{k}_{rep}.zarr"
